@@ -1,5 +1,5 @@
 """E-doc: C01 (content), C02 (fixpoint), C03 (totality), C07 (outline) on TLC-generated documents."""
-import json, os, random
+import json, os, random, concurrent.futures
 from common import *
 
 VARIANTS = "loose-atx,tight-setext,tight-atx-indent,loose-crlf"
@@ -182,8 +182,145 @@ def check(pid, tier):
     return res.finish()
 
 
+def mutate(rnd, t):
+    """seeded byte-level mutation at character boundaries"""
+    specials = ["\r", "\n", "\t", "\x00", "\ufeff", "*", "_", "`", "[", "]", "(", ")", "<", ">", "#", "|", "-", "+", "1.", "  ", "\\", "![", "[[", "]]", "---", "```", "~~~", ">", "é", "😀", "&amp;", "<div>", "$"]
+    chars = list(t)
+    for _ in range(rnd.randint(1, 4)):
+        op = rnd.choice(["ins", "del", "dup", "swap", "cut", "nl"])
+        i = rnd.randint(0, len(chars)) if chars else 0
+        if op == "ins":
+            chars[i:i] = list(rnd.choice(specials))
+        elif op == "del" and chars:
+            j = min(len(chars), i + rnd.randint(1, 5))
+            del chars[i:j]
+        elif op == "dup" and chars:
+            j = min(len(chars), i + rnd.randint(1, 12))
+            chars[i:i] = chars[i:j]
+        elif op == "swap" and len(chars) > 2:
+            a, b = rnd.randrange(len(chars)), rnd.randrange(len(chars))
+            chars[a], chars[b] = chars[b], chars[a]
+        elif op == "cut" and chars:
+            chars = chars[:i]
+        elif op == "nl":
+            chars = list("".join(chars).replace("\n", "\r\n", rnd.randint(1, 3)))
+    return "".join(chars)
+
+
+def stress_texts(tier):
+    big = 600 if tier == "quick" else 3000
+    deep = 60 if tier == "quick" else 300
+    out = {
+        "siblings-paragraphs": "".join("para %d\n\n" % i for i in range(big)),
+        "siblings-items": "".join("- item %d\n" % i for i in range(big)),
+        "siblings-headings": "".join("## h%d\n\n" % i for i in range(big)),
+        "siblings-refs": "".join("[r%d](n%d)\n\n" % (i, i) for i in range(big)),
+        "nested-lists": "".join("  " * i + "- l%d\n" % i for i in range(deep)),
+        "nested-quotes": "".join("> " * i + "q%d\n\n" % i for i in range(1, deep)),
+        "nested-emphasis": "*" * deep + "x" + "*" * deep + "\n",
+        "nested-links": "[" * deep + "x" + "](a)" * deep + "\n",
+        "long-line": "word " * (big * 20) + "\n",
+        "long-table": "| a | b |\n|---|---|\n" + "".join("| %d | [x](y) |\n" % i for i in range(big)),
+        "deep-headings": "".join("#" * (1 + i % 6) + " h%d\n\n" % i for i in range(big)),
+        "only-newlines": "\n" * big,
+        "crlf-everything": "# t\r\n\r\n- a\r\n- b\r\n\r\n> q\r\n",
+        "nul": "a\x00b\n\x00\n",
+        "bom": "\ufeff# t\n",
+        "unclosed-fence": "```\ncode\n",
+        "unclosed-meta": "---\nmeta: 1\n",
+        "meta-only": "---\na: 1\n---\n",
+        "empty": "",
+    }
+    return out
+
+
 def total_extra(res, work, tier):
-    return 0
+    """C03: every operation on every rendered text of the universes, on seeded mutations of them and on stress sizes,
+    in child processes (an abort is attributed to the text the child was working on)"""
+    import random, glob
+    vh = build_harness()
+    rnd = random.Random(seed())
+    texts, seen = [], set()
+    for det in sorted(glob.glob(os.path.join(work, "det_*.ndjson"))):
+        with open(det) as f:
+            for line in f:
+                if '"reject"' in line:
+                    continue
+                t = json.loads(line).get("text")
+                if t is not None and t not in seen:
+                    seen.add(t)
+                    texts.append(t)
+    rnd.shuffle(texts)
+    n_base = 1500 if tier == "quick" else 20000
+    base = texts[:n_base]
+    corpus = [{"id": "universe:%d" % i, "text": t} for i, t in enumerate(base)]
+    n_mut = 3000 if tier == "quick" else 60000
+    for i in range(n_mut):
+        corpus.append({"id": "mutation:%d" % i, "text": mutate(rnd, rnd.choice(texts))})
+    for name, t in stress_texts(tier).items():
+        corpus.append({"id": "stress:" + name, "text": t})
+    shards = 12
+    paths = []
+    for s in range(shards):
+        p = os.path.join(work, "total_in.%d.ndjson" % s)
+        with open(p, "w") as f:
+            for c in corpus[s::shards]:
+                f.write(json.dumps(c) + "\n")
+        paths.append(p)
+
+    def run_shard(s):
+        inp, out = paths[s], os.path.join(work, "total_out.%d.ndjson" % s)
+        if os.path.exists(out):
+            os.remove(out)
+        n = sum(1 for _ in open(inp))
+        start = 0
+        aborted = []
+        while start < n:
+            rc, log_, _ = run([vh, "total-run", inp, out, str(start), "20000"], 3000)
+            done, begun = -1, -1
+            for line in open(out):
+                e = json.loads(line)
+                if e["ev"] == "Begin":
+                    begun = e["i"]
+                elif e["ev"] == "Total":
+                    done = e["i"]
+            if rc == 0 and done == n - 1:
+                break
+            # the child died on text `begun`
+            if begun > done:
+                with open(out, "a") as f:
+                    f.write(json.dumps({"ev": "Total", "i": begun, "id": "?", "bad": [["process", "abort(rc=%s)" % rc]], "ops": 0, "ms": 0}) + "\n")
+                start = begun + 1
+            else:
+                start = done + 1
+        return out
+
+    outs = []
+    with concurrent.futures.ThreadPoolExecutor(max_workers=shards) as ex:
+        outs = list(ex.map(run_shard, range(shards)))
+    total = 0
+    for s, o in enumerate(outs):
+        tr = os.path.join(work, "total_tr.%d.ndjson" % s)
+        items = [json.loads(l) for l in open(paths[s])]
+        with open(tr, "w") as f:
+            for line in open(o):
+                e = json.loads(line)
+                if e["ev"] == "Total":
+                    f.write(line)
+                    total += 1
+        r = tlc("Trace_Total.tla", "Trace_Total.cfg", os.path.join(work, "trt_%d" % s), workers=1, timeout=1800, env={"TRACE": tr},
+                trace_mode=True, heap="2g")
+        if '"ACCEPTED"' not in r["out"]:
+            raise ToolError("Trace_Total did not consume %s:\n%s" % (tr, r["out"][-2000:]))
+        for v in prints(r["out"], "VERDICT"):
+            item = items[v["i"]]
+            p = save_replay(work, "C03_total_%s" % item["id"].replace(":", "_"), {"property": "C03", "reasons": v["bad"], "id": item["id"], "text": item["text"][:20000]})
+            res.violation(p, "%s %s: %s" % (item["id"], json.dumps(item["text"][:60]), json.dumps(v["bad"])[:200]))
+    res.cov["total_texts"] = total
+    res.cov["total_mutations"] = n_mut
+    res.cov["total_stress"] = sorted(stress_texts(tier))
+    res.cov["evaluations_total_ops"] = total * 14
+    return total
 
 
 def check_c01(tier):
